@@ -111,7 +111,7 @@ def default_for(engine, ty):
         return BV(False)
     if t.startswith('Option<'):
         return mk_option(False, ty=t)
-    if t.startswith('Vec<') or t.startswith('TinyVec<'):
+    if t.startswith(('Vec<', 'TinyVec<', 'std::vec::Vec<', 'alloc::vec::Vec<', 'tinyvec::TinyVec<')):
         return VecV([])
     if t == 'String':
         return Opaque('""')
@@ -326,6 +326,8 @@ def std_trait(engine, st, ty, tyb, tb, method, args, dest_ty, trait=None):
             return a            # &Vec<T> -> &[T]: same sequence object
         if isinstance(inner, RefV):
             return inner
+        if tb == 'Borrow' and isinstance(a, RefV):
+            return a            # impl<T> Borrow<T> for T
         raise Inconclusive(f'deref of {inner!r}')
     if tb == 'Clone' and method == 'clone':
         inner = unref(args[0])
